@@ -60,9 +60,12 @@ CHECKS = {
         text="Random and directed op programs (depth 1..8) over mixed quantized/plain operands run on the real tensor "
              "subclasses; each monitored call is shadow-executed on the dequantized operands and compared byte-wise "
              "(moves), within ulps (rescale/pass-through), within one output step (re-quantization) or within the dot-"
-             "product bound (contractions); raising where the float program is valid is a violation except documented refusals.",
+             "product bound (contractions); in-place steps (mul_/add_/.../`x += y`/inplace=True/indexed assignment) are judged "
+             "on the destination afterwards; every live tensor of the program must keep its bits unless the float program "
+             "aliases it; raising where the float program is valid is a violation except the documented refusals.",
         note="Per-step judgement from the actual operands of each step (errors do not compound). Known findings C05-F5b, "
-             "F9, F13, QB1 are matched by mechanism. Crash classes of C07 are steered around. CUDA paths not executed."),
+             "F5c, F13, ALIAS, INPLACE, SLICE are matched by mechanism labels. The int8pack crash class of C07 is steered "
+             "around. CUDA paths not executed. Anchors (reach counters) include QTensorLinear.forward, mm, bmm, where, copy_."),
     "C06": dict(
         technique="runtime invariant at hooks: metadata invariant evaluated on every quantized tensor returned at "
                   "QTensor.__torch_function__ and both __torch_dispatch__ entry points, and on API results of histories",
@@ -77,13 +80,15 @@ CHECKS = {
                   "float64 product) and dot-product error bounds on linear/mm/bmm/quanto::qbytes_mm and each route "
                   "function, in worker subprocesses with intent logs (native crash containment)",
         level="exploration", ref="4/C07",
-        text="Operand sets over both sides of every size threshold are pushed through F.linear, mm/matmul/bmm, the custom "
+        text="Operand sets over both sides of every size threshold, with contiguous, transposed, sliced and stride-0 expanded "
+             "activations, are pushed through F.linear, mm/matmul/bmm, the custom "
              "operator and every CPU route function directly; 'exact' sets (small integer codes, power-of-two scales, "
              "dyadic bias) must be bit-identical to the float64 product, 'realistic' sets (row scales over decades, "
              "saturating codes) within the accumulation bound; output dtype/shape/finiteness are checked.",
         note="Workers write the case to an intent log before running it; a worker killed by a signal is a violation "
-             "witness (known finding C07-F33 is the platform's int8pack kernel, probed in sacrificial cases; C07-F34 is "
-             "torch._int_mm with K=1). CUDA/MPS routes are not executed."),
+             "witness (known finding C07-F33 is the platform's int8pack kernel, probed in sacrificial cases; the former "
+             "finding C07-F34, torch._int_mm on operands with ambiguous strides, was repaired in /repo). CUDA/MPS routes "
+             "are not executed."),
     "C08": dict(
         technique="runtime monitor: structural diff of the module tree around the real quantize() + module-boundary twin "
                   "oracle (float64 reference of the original class on the dequantized weight and the quantized input "
@@ -98,14 +103,17 @@ CHECKS = {
              "from one calibration batch with streamline=False. Known crash classes of C07 are steered around."),
     "C09": dict(
         technique="offline checker over recorded lifecycle histories: bit fingerprints of outputs, parameters, scales and "
-                  "inner tensors after every step of random forward/calibrate/freeze/move/deepcopy interleavings",
+                  "inner tensors after every step of random forward/calibrate/freeze/move/copy interleavings",
         level="exploration", ref="4/C09",
-        text="Runnable models (7 architectures, degenerate weight rows included) go through random lifecycle histories on "
+        text="Runnable models (9 architectures, degenerate weight rows included) go through random lifecycle histories "
+             "(forward, calibrate, freeze, freeze again, to('cpu') / cpu() / to(torch.device) / non_blocking moves, deepcopy, "
+             "copy.copy, pickle and torch.save round trips of the module, _apply(clone), reloading its own state_dict) on "
              "the real API; the recorder stores byte fingerprints after every step and the checker allows changes only "
              "across calibrate steps, requires freeze idempotence, untouched biases/scales/other modules, and after freeze "
              "the requested qtype with a dense payload and one scale (zero-point) per output index or group.",
         note="One device only: moves are cpu->cpu (so device-move code that only runs between different devices is not "
-             "executed); copies are copy.deepcopy."),
+             "executed). pickle of float8 payloads is replaced by torch.save (plain float8 tensors do not survive "
+             "pickle.loads in this torch build)."),
     "C10": dict(
         technique="offline checker over recorded save/load histories: value-by-value comparison of state dicts across three "
                   "serializers and bit fingerprints of weights, scales, qtypes and outputs across three kinds of target",
@@ -153,8 +161,11 @@ CHECKS = {
              "function the fault-free run reaches (calibrate_input, calibrate_output, _updated_scale, absmax_scale, "
              "qforward, forward, __torch_function__, quantize_activation, quantize_weight); after the outermost exit the "
              "global registries and mode stack must equal the snapshot taken before; outside a context inference must not "
-             "change any parameter, buffer, scale or qtype and must be repeatable bit for bit; library calls must not "
-             "modify the float tensors they read.",
+             "change any parameter, buffer, scale or qtype and must be repeatable bit for bit - also for 'glue' models "
+             "whose forward applies functional and in-place tensor code (26 operations) to the quantized activations "
+             "handed out by quantized modules, and for quantized model inputs; global torch state (grad mode, default "
+             "dtype, mode stacks, RNG) is snapshotted around inference and library calls; library calls must not modify "
+             "the float tensors they read.",
         note="Fault points are function entries (PY_START), so faults between two statements of one function are not "
              "enumerated. Fault enumeration is complete for the (function, k) pairs of the listed functions in quick tier "
              "for k in {1, 2, last} and for k <= 6 and last in thorough tier."),
@@ -168,7 +179,9 @@ CHECKS = {
              "rank 1-4; x.grad, weight.grad and bias.grad must match float64 autograd on the twin built from the dequantized "
              "weight and the observed quantized input within the contraction bound; frozen weights and scales must have no "
              "gradient; after each in-place weight update the quantized weight of the next forward must be within one step "
-             "of the new float weight.",
+             "of the new float weight. Every case also checks the tensor-level straight-through identity: float leaf -> "
+             "quantize_weight / quantize_activation -> dequantize -> backward(G) must leave exactly G (mapped through the "
+             "views) in the leaf's gradient.",
         note="The upstream gradient is applied to out.dequantize() when activations are quantized. Gradient tolerances "
              "observed on the unchanged tree stay below 0.11 of the bound."),
     "C14": dict(
